@@ -283,6 +283,8 @@ def run_group(group, repo='/repo', outdir=None, seed=0, rlimit=None, extra_args=
             why.append('proof aid dropped (no longer type-checks): ' + '; '.join(map(str, u['dropped_aids'][:3])))
         if u['unit'] in bare:
             why.append('all proof aids dropped')
+        if u['unit'].startswith('auto.'):
+            why.append('function without contract (extracted automatically because contracted code calls it)')
         if u['unit'] in helper_callers:
             why.append('calls a function without contract: ' + ', '.join(sorted(helper_callers[u['unit']])))
         if any(r_[0] != 'fuzzy' and str(r_[1]).startswith('ANCHOR LOST') for r_ in u.get('rules', [])):
